@@ -620,6 +620,38 @@ def check_escape_machines(prog: Program, res: Results) -> None:
                             f"{sorted(never)}, but it must-does {sorted(o.must & (must | never | {clr_e}))} and may do "
                             f"{sorted(o.may & (must | never))}: e.g. the name `a\\\\` (ending in an escaped backslash) is read with the closing "
                             f"quote taken for an escaped one")
+    # the same question for the whole scanner loop: while an escape is pending inside quotes, `${` does not open an interpolation
+    sa_ = prog.func("_split_attrpath")
+    loops = [l for l in walk_no_nested(sa_.node) if isinstance(l, (ast.While, ast.For))]
+    if len(loops) == 1:
+        lp = loops[0]
+        state_vars = {}
+        for x in ast.walk(lp):
+            if isinstance(x, ast.Assign) and len(x.targets) == 1 and isinstance(x.targets[0], ast.Name) and isinstance(x.value, ast.Constant) \
+                    and isinstance(x.value.value, (bool, int)):
+                state_vars.setdefault(x.targets[0].id, set()).add(x.value.value)
+        q = next((v for v in state_vars if "quote" in v and not v.startswith("interp")), None)
+        e = next((v for v in state_vars if v.startswith("escape")), None)
+        depth = next((v for v in state_vars if "depth" in v), None)
+        chv = next((norm(d.targets[0]) for d in ast.walk(lp) if isinstance(d, ast.Assign) and isinstance(d.value, ast.Subscript)
+                    and isinstance(d.targets[0], ast.Name) and len(d.targets[0].id) <= 4), None)
+        if q and e and depth and chv:
+            idx = next((norm(d.value.slice) for d in ast.walk(lp) if isinstance(d, ast.Assign) and norm(d.targets[0]) == chv and isinstance(d.value, ast.Subscript)), "index")
+            src = next((norm(d.value.value) for d in ast.walk(lp) if isinstance(d, ast.Assign) and norm(d.targets[0]) == chv and isinstance(d.value, ast.Subscript)), "text")
+            env = {q: True, e: True, chv: "$", f"{depth} > 0": False, f"{src}[{idx} + 1]": "{", f"{idx} + 1 < len({src})": True, depth: 0}
+            body = [st for st in lp.body if not (isinstance(st, ast.Assign) and norm(st.targets[0]) == chv)]
+            o = outcome(body, env)
+            opened = sorted(a for a in o.may if a.startswith(f"{depth} = ") or a.startswith(f"{depth} += "))
+            r.instances += 1
+            ok = not opened
+            r.ob(ok, {"scanner": sa_.key, "row": "escape pending, `${` inside quotes", "opens_interpolation": opened})
+            if not ok:
+                res.add("R-C12-5", (sa_.key, q, "escape machine row", "escape pending, ${"), sa_.loc(lp),
+                        f"{sa_.key}: inside quotes with an escape pending, `${{` may execute {opened}: the escaped `\\${{` that set writes for a "
+                        f"literal `${{` is read back as the start of an interpolation, the closing quote is then swallowed, and the file "
+                        f"can no longer be read (`Unterminated quoted attrpath segment`)")
+        else:
+            res.unclass("_split_attrpath: state variables of the scanner loop were not recognised")
     if machines < 3:
         res.unclass(f"only {machines} quoted-state scanners recognised (expected the two of _split_attrpath and the one of _parse_npath)")
 
